@@ -19,9 +19,12 @@ package main
 
 import (
 	"encoding/binary"
+	"encoding/json"
 	"fmt"
 	"math/big"
 	"os"
+	"os/exec"
+	"path/filepath"
 	"runtime/pprof"
 	"sort"
 	"strings"
@@ -231,6 +234,8 @@ type world struct {
 	poolLDB    db.Database // executed-transaction store of the harness-installed pool
 	g0, g1     content     // genesis content of shared / state store (the pool store starts empty)
 	genesis    *types.BlockHeader
+	progress   string // file that names the scenario under way (side process)
+	pal        *pvPalette
 	genesisLog []wrec // store writes of insertGenesisBlock at the first start, in order
 }
 
@@ -326,7 +331,8 @@ type blk struct {
 	parent int
 	id     uint64 // 1 + rank of the hash among the universe (order-isomorphic to the hash)
 	rootId uint64
-	txs    []int // indexes into history.txu, in the order the block stores them (executor's sort)
+	pvId   uint64 // rank of the prove value among the universe's (order-isomorphic; equal values, equal rank)
+	txs    []int  // indexes into history.txu, in the order the block stores them (executor's sort)
 }
 
 // transaction type without an executor: the block executor gives it a (failed) receipt and bumps the
@@ -345,11 +351,54 @@ func mkTx(hi, i int) *types.Transaction {
 	return t
 }
 
+// Prove values are VRF outputs of up to 80 bytes. The generators think in small "levels"; every history
+// maps them, order-preserving as full integers, to realistic values in one of these shapes:
+//
+//	0  differ only above bit 64 (equal low 64 bits)      3  small values (leading-zero forms, < 2^64)
+//	1  high part increasing, low 64 bits DECREASING      4  random 80-byte values, ordered by the top bits
+//	2  equal high part, differ only below bit 64
+//
+// Equal levels give equal values (the hash then decides).
+type pvPalette struct {
+	mode int
+	base *big.Int
+	memo map[int64]*big.Int
+	r    *hx.Rng
+}
+
+func (w *world) newPalette(r *hx.Rng) {
+	w.pal = &pvPalette{mode: r.Intn(5), base: new(big.Int).SetBytes(r.Bytes(70)), memo: map[int64]*big.Int{}, r: r.Fork()}
+}
+
+func (w *world) pvOf(level int64) *big.Int {
+	pl := w.pal
+	if v, ok := pl.memo[level]; ok {
+		return new(big.Int).Set(v)
+	}
+	l := big.NewInt(level)
+	low := new(big.Int).And(pl.base, new(big.Int).SetUint64(^uint64(0)))
+	v := new(big.Int)
+	switch pl.mode {
+	case 0:
+		v.Add(new(big.Int).Lsh(l, 600), low)
+	case 1:
+		v.Add(new(big.Int).Lsh(l, 590), new(big.Int).SetUint64(^uint64(0)-uint64(level)*1000003))
+	case 2:
+		v.Add(new(big.Int).Lsh(new(big.Int).Rsh(pl.base, 64), 64), l)
+	case 3:
+		v.Set(l)
+	default:
+		v.Add(new(big.Int).Lsh(l, 620), new(big.Int).SetBytes(pl.r.Bytes(75)))
+	}
+	pl.memo[level] = v
+	return new(big.Int).Set(v)
+}
+
 func (w *world) build(parent *types.BlockHeader, height, qn uint64, pv int64, salt byte, txs []*types.Transaction) *types.Block {
 	bh := &types.BlockHeader{
 		CurTime:      parent.CurTime.Add(time.Duration(height-parent.Height) * time.Second),
 		Height:       height,
-		ProveValue:   big.NewInt(pv),
+		ProveValue:   w.pvOf(pv),
 		Castor:       []byte{0xca, 0x57, salt},
 		TotalQN:      parent.TotalQN + qn,
 		PreHash:      parent.Hash,
@@ -392,6 +441,7 @@ type history struct {
 }
 
 func (w *world) genHistory(r *hx.Rng, tier string, hi int) *history {
+	w.newPalette(r)
 	h := &history{byHash: map[common.Hash]int{}, txIdx: map[common.Hash]int{}}
 	h.blocks = append(h.blocks, &blk{hdr: w.genesis, parent: -1})
 	for i := 0; i < 8; i++ {
@@ -483,6 +533,7 @@ func (w *world) genHistory(r *hx.Rng, tier string, hi int) *history {
 		}
 	}
 	h.byHash[w.genesis.Hash] = 0
+	h.rankPv()
 	// ids by hash rank; state-root ids by first appearance
 	idx := make([]int, len(h.blocks))
 	for i := range idx {
@@ -533,8 +584,34 @@ func (w *world) genHistory(r *hx.Rng, tier string, hi int) *history {
 	return h
 }
 
+func (h *history) rankPv() {
+	var vals []*big.Int
+	for _, b := range h.blocks {
+		pv := b.hdr.ProveValue
+		if pv == nil {
+			pv = new(big.Int)
+		}
+		vals = append(vals, pv)
+	}
+	sorted := append([]*big.Int(nil), vals...)
+	sort.Slice(sorted, func(a, b int) bool { return sorted[a].Cmp(sorted[b]) < 0 })
+	for i, b := range h.blocks {
+		rank := uint64(0)
+		for j, x := range sorted {
+			if j > 0 && x.Cmp(sorted[j-1]) != 0 {
+				rank++
+			}
+			if x.Cmp(vals[i]) == 0 {
+				break
+			}
+		}
+		b.pvId = rank
+	}
+}
+
 // finish a universe: ids by hash rank, state-root ids by first appearance
 func (h *history) number(w *world) {
+	h.rankPv()
 	h.byHash[w.genesis.Hash] = 0
 	idx := make([]int, len(h.blocks))
 	for i := range idx {
@@ -560,6 +637,7 @@ func (h *history) number(w *world) {
 // re-delivered while still cached L is refused by weight again (the executed-check is skipped), after 20
 // more verifications it has been evicted and is refused by verifyBlock (T is executed on the chain).
 func (w *world) genCacheHistory(hi int) *history {
+	w.newPalette(hx.NewRng(uint64(hi)))
 	h := &history{byHash: map[common.Hash]int{}, txIdx: map[common.Hash]int{}, noFork: true}
 	h.blocks = append(h.blocks, &blk{hdr: w.genesis, parent: -1})
 	for i := 0; i < 2; i++ {
@@ -606,6 +684,7 @@ func (w *world) genCacheHistory(hi int) *history {
 // block above A, first competitor, local block at the competitor's height) are a random arrangement of
 // three levels - all six orderings occur - or tie, which leaves the decision to the hash.
 func (w *world) genTieHistory(r *hx.Rng, hi int) *history {
+	w.newPalette(r)
 	h := &history{byHash: map[common.Hash]int{}, txIdx: map[common.Hash]int{}, noFork: r.Intn(2) == 0}
 	h.blocks = append(h.blocks, &blk{hdr: w.genesis, parent: -1})
 	for i := 0; i < 8; i++ {
@@ -696,6 +775,72 @@ func (w *world) genTieHistory(r *hx.Rng, hi int) *history {
 	return h
 }
 
+func (w *world) note(what string) {
+	if w.progress != "" {
+		os.WriteFile(w.progress, []byte(what), 0644)
+	}
+}
+
+// The long-chain scenarios run in a side process (same binary, own working directory): a fatal error in
+// the node code (stack overflow of a recursion that no longer ends, ...) cannot be recovered in-process
+// and would take the whole run with it; this way it becomes a violation with the scenario as input.
+func runSide(a hx.Args, res *hx.Result) {
+	dir, _ := filepath.Abs("side")
+	out := filepath.Join(dir, "out")
+	os.RemoveAll(dir)
+	os.MkdirAll(out, 0755)
+	cmd := exec.Command(os.Args[0], "-seed", fmt.Sprint(a.Seed), "-n", fmt.Sprint(a.N), "-tier", a.Tier, "-out", out)
+	cmd.Dir = dir
+	cmd.Env = append(os.Environ(), "C05_SIDE=1")
+	log, _ := os.Create(filepath.Join(dir, "side.log"))
+	cmd.Stdout, cmd.Stderr = log, log
+	err := cmd.Run()
+	log.Close()
+	b, rerr := os.ReadFile(filepath.Join(out, "result.json"))
+	if err != nil || rerr != nil {
+		prog, _ := os.ReadFile(filepath.Join(out, "progress.txt"))
+		lg, _ := os.ReadFile(filepath.Join(dir, "side.log"))
+		why := "the process died"
+		for _, ln := range strings.Split(string(lg), "\n") {
+			if strings.HasPrefix(ln, "fatal error") || strings.HasPrefix(ln, "panic") {
+				why = ln
+				break
+			}
+		}
+		frames := ""
+		for _, ln := range strings.Split(string(lg), "\n") {
+			if i := strings.Index(ln, "/src/core."); i >= 0 && len(frames) < 400 {
+				f := ln[i+len("/src/core."):]
+				if j := strings.LastIndex(f, "("); j > 0 {
+					f = f[:j]
+				}
+				if !strings.Contains(frames, f) {
+					frames += f + " <- "
+				}
+			}
+		}
+		res.Violate("C05/crash:process-died", fmt.Sprintf("the node code brought the process down (%s) in: %s", why, frames), string(prog))
+		res.Count("side:process-died", "side", true)
+		if rerr != nil {
+			return
+		}
+	}
+	var sr hx.Result
+	if json.Unmarshal(b, &sr) != nil {
+		return
+	}
+	for _, v := range sr.Violations {
+		res.Violate(v.Key, v.What, v.Input)
+	}
+	for k, n := range sr.Histogram {
+		if !strings.HasPrefix(k, "violation:") {
+			res.Histogram[k] += n
+		}
+	}
+	res.Evaluations += sr.Evaluations
+	res.DistinctNontrivial += sr.DistinctNontrivial
+}
+
 // ---------- lock-free readers against a reorg (gated schedules) ----------
 // QueryBlockHeaderByHeight / GetBlockHash / QueryBlockByHash are called without the chain lock (RPC, EVM
 // BLOCKHASH). One reader is parked right after its store read - before it returns and before anything it
@@ -706,6 +851,7 @@ func (w *world) genTieHistory(r *hx.Rng, hi int) *history {
 //	warm:  the same without the restart (the reader is served from topBlocks and never parks)
 //	deep:  a chain longer than the topBlocks lru (100); reader of an evicted height; a heavy sibling there
 func (w *world) gatedReaders(res *hx.Result) {
+	w.newPalette(hx.NewRng(77))
 	type variant struct {
 		name   string
 		length int  // blocks on the first branch
@@ -736,6 +882,7 @@ func (w *world) gatedReaders(res *hx.Result) {
 		sib := add(v.at-1, uint64(v.length)+5, 2) // heavier than the whole first branch
 		h.number(w)
 		c := &ctx{w: w, h: h, res: res, seq: fmt.Sprintf("gated readers (%s): first branch of %d blocks above genesis, heavier sibling at height %d", v.name, v.length, v.at)}
+		w.note(c.seq)
 		w.setStores(w.g0, w.g1, content{})
 		if err := w.restart(); err != nil {
 			panic(err)
@@ -809,10 +956,97 @@ func (w *world) gatedReaders(res *hx.Result) {
 	}
 }
 
+// ---------- reorgs on chains longer than the topBlocks lru ----------
+// topBlocks (100 entries) is an lru BY USE: cached reads of old heights refresh them, so the next new
+// heads evict recent heights that nobody read. Chain of 101-130 blocks; cached reads
+// (QueryBlockHeaderByHeight(h,true) / GetBlockHash) of all cached heights but the newest few; some more
+// blocks; then a heavier sibling forking 2-12 blocks below the head, so that the roll-back range covers
+// evicted heights with cached ones below. Full invariant through cached and uncached paths, then a
+// restart and the invariant again.
+func (w *world) deepReorgs(res *hx.Result, r *hx.Rng, count int) {
+	for di := 0; di < count; di++ {
+		w.newPalette(r)
+		h := &history{byHash: map[common.Hash]int{}, txIdx: map[common.Hash]int{}, noFork: true}
+		h.blocks = append(h.blocks, &blk{hdr: w.genesis, parent: -1})
+		add := func(p int, qn uint64, pv int64) int {
+			ph := h.blocks[p].hdr
+			b := w.build(ph, ph.Height+1, qn, pv, byte(len(h.blocks)), nil)
+			raw, _ := types.MarshalBlock(b)
+			h.byHash[b.Header.Hash] = len(h.blocks)
+			h.blocks = append(h.blocks, &blk{hdr: b.Header, raw: raw, parent: p})
+			if b.Header.Height > h.maxH {
+				h.maxH = b.Header.Height
+			}
+			return len(h.blocks) - 1
+		}
+		n1 := 101 + r.Intn(22)  // blocks before the reads
+		unread := 2 + r.Intn(4) // newest heights left unread
+		more := 1 + r.Intn(unread+2)
+		depth := 2 + r.Intn(11) // fork point below the final head
+		p := 0
+		for i := 0; i < n1+more; i++ {
+			p = add(p, 1, int64(1+r.Intn(3)))
+		}
+		total := n1 + more
+		if depth >= total {
+			depth = total - 1
+		}
+		sib := add(total-depth, uint64(depth)+3, int64(1+r.Intn(3)))
+		h.number(w)
+		c := &ctx{w: w, h: h, res: res, seq: fmt.Sprintf("deep reorg %d: chain of %d blocks, cached reads of heights %d..%d, %d more blocks, heavier sibling of block %d (fork %d below the head)",
+			di, n1, n1-99, n1-unread, more, total-depth+1, depth)}
+		w.note(c.seq)
+		w.setStores(w.g0, w.g1, content{})
+		if err := w.restart(); err != nil {
+			panic(err)
+		}
+		ch := core.GetBlockChain()
+		deliver := func(i int) {
+			blk, _ := types.UnMarshalBlock(h.blocks[i].raw)
+			ch.AddBlockOnChain(blk)
+		}
+		for i := 1; i <= n1; i++ {
+			deliver(i)
+		}
+		for ht := n1 - 99; ht <= n1-unread; ht++ {
+			if ht < 0 {
+				continue
+			}
+			if r.Intn(2) == 0 {
+				core.VerifBCHeightHeader(uint64(ht), true)
+			} else {
+				ch.GetBlockHash(uint64(ht))
+			}
+		}
+		for i := n1 + 1; i <= total; i++ {
+			deliver(i)
+		}
+		deliver(sib)
+		if top := ch.TopBlock(); top.Hash != h.blocks[sib].hdr.Hash {
+			res.Violate("C05/deep:reorg-did-not-happen", "the heavier sibling did not become the head", c.seq)
+		}
+		ok1 := c.checkInv("deep-reorg", c.seq)
+		ok2 := true
+		if err := w.restart(); err != nil {
+			res.Violate("C05/restart-failed:complete", err.Error(), c.seq+"; clean restart after the reorg")
+			w.setStores(w.g0, w.g1, content{})
+			if e2 := w.restart(); e2 != nil {
+				panic(e2)
+			}
+			ok2 = false
+		} else {
+			ok2 = c.checkInv("deep-reorg-restart", c.seq+"; after a clean restart")
+		}
+		_ = ok1 && ok2
+		res.Count("deep-reorg", fmt.Sprintf("d%d", di), true)
+	}
+}
+
 // scripted history for the fork switch: local chain g-x (QN 5); the peer's chain g-f1-f2-f3 (QN 1,2,6);
 // c (child of f1, QN 4) arrived by broadcast before and waits as an orphan. The switch removes x, adds
 // f1, whose callback pulls c in; f2 is lighter than c and refused; the switch stops with head c (QN 4).
 func (w *world) genForkOrphanHistory(hi int) *history {
+	w.newPalette(hx.NewRng(uint64(hi)))
 	h := &history{byHash: map[common.Hash]int{}, txIdx: map[common.Hash]int{}, noFork: true, script: map[int][2]int{}}
 	h.blocks = append(h.blocks, &blk{hdr: w.genesis, parent: -1})
 	add := func(p int, qn uint64, pv int64) int {
@@ -1254,7 +1488,7 @@ func (c *ctx) runHistory(r *hx.Rng, tier string, hi int) (string, interface{}) {
 			if len(b.txs) > 0 {
 				tx = fmt.Sprintf(" tx=%v", b.txs)
 			}
-			desc = append(desc, fmt.Sprintf("b%d{id%d pre=b%d h=%d tqn=%d pv=%s%s}", i, b.id, b.parent, b.hdr.Height, b.hdr.TotalQN, b.hdr.ProveValue, tx))
+			desc = append(desc, fmt.Sprintf("b%d{id%d pre=b%d h=%d tqn=%d pv=%s%s}", i, b.id, b.parent, b.hdr.Height, b.hdr.TotalQN, pvDesc(b), tx))
 		}
 	}
 	c.seq = fmt.Sprintf("seed-history %d: %s; deliver %v", hi, strings.Join(desc, " "), h.deliver)
@@ -1636,10 +1870,7 @@ func (c *ctx) runHistory(r *hx.Rng, tier string, hi int) (string, interface{}) {
 		if b.parent >= 0 {
 			pre = h.blocks[b.parent].id
 		}
-		pv := uint64(0)
-		if b.hdr.ProveValue != nil {
-			pv = b.hdr.ProveValue.Uint64()
-		}
+		pv := b.pvId
 		var tl []string
 		for _, t := range b.txs {
 			tl = append(tl, fmt.Sprint(t+1))
@@ -1735,6 +1966,15 @@ func (w *world) genesisPass(res *hx.Result) (string, interface{}) {
 	return term, map[string]interface{}{"history": c.seq, "steps": len(steps)}
 }
 
+// rank and shape of a prove value for replays: #rank:bits:low64
+func pvDesc(b *blk) string {
+	pv := b.hdr.ProveValue
+	if pv == nil {
+		pv = new(big.Int)
+	}
+	return fmt.Sprintf("#%d(%dbit,low64=%x)", b.pvId, pv.BitLen(), new(big.Int).And(pv, new(big.Int).SetUint64(^uint64(0))).Uint64())
+}
+
 func contains(l []int, x int) bool {
 	for _, y := range l {
 		if y == x {
@@ -1754,6 +1994,18 @@ func main() {
 	rng := hx.NewRng(a.Seed)
 	res := hx.NewResult("one evaluation = the invariant/weight/head-on-path checks on the real chain after one delivery, or after one restart from one crash point (store content = first m writes of the delivery, optionally + first j writes of a cut repair); nontrivial = the delivery wrote to the store, resp. the crash point lies strictly inside the operation or the repair was cut; distinct = distinct (history, operation, m, j)")
 	w := boot()
+	if os.Getenv("C05_SIDE") != "" {
+		w.progress = filepath.Join(a.Out, "progress.txt")
+		if a.Tier == "thorough" {
+			w.deepReorgs(res, rng.Fork(), 10)
+		} else {
+			w.deepReorgs(res, rng.Fork(), 3)
+		}
+		res.Write(a.Out) // kept if a later scenario takes the process down
+		w.gatedReaders(res)
+		res.Write(a.Out)
+		return
+	}
 	cs := hx.NewCases(a.Out, "From V.C05 Require Import Model Harness.", "list block * list step", "check", 12)
 	t0 := time.Now()
 	nh := a.N
@@ -1761,7 +2013,7 @@ func main() {
 		term, js := w.genesisPass(res)
 		cs.Add(term, js)
 	}
-	w.gatedReaders(res)
+	runSide(a, res)
 	{
 		h := w.genCacheHistory(100000)
 		c := &ctx{w: w, h: h, res: res}
